@@ -106,7 +106,13 @@ Inductive fop :=
 | FRead (n : Z)               (* n < 0: everything up to the end *)
 | FWrite (bs : list Z)
 | FSlice (a b step : option Z)
-| FTell | FLen | FAddress | FFlush | FClose.
+| FTell | FLen | FAddress | FFlush | FClose
+(* the environment misbehaving: an I/O error during the transfer (if bytes were to move); the
+   truncation warning treated as an error *)
+| FFaultRead (n : Z) | FFaultWrite (bs : list Z)
+| FStrictRead (n : Z) | FStrictWrite (bs : list Z)
+(* a `with` block: entering does nothing, leaving it -- however it is left -- closes *)
+| FEnter | FExit.
 
 Inductive aop := AWin (i : nat) (o : fop) | AFree.
 
@@ -121,12 +127,39 @@ Definition wstep (fr : bool) (d : list Z) (w : window) (o : fop)
   (* every operation but len() and close() fails once the window is closed or the file freed *)
   let live (x : window * option window * list Z * aout) :=
     if w_closed w || fr then (w, None, d, (Failed 0, false)) else x in
-  match o with
-  | FLen => (w, None, d, (Ok (VInt (wlen w)), false))
-  | FClose =>
+  let closing :=
       if w_closed w then (w, None, d, (Ok VNone, false))
       else if fr then (w, None, d, (Failed 0, false))
-      else (mkWindow (w_lo w) (w_hi w) (w_pos w) true, None, d, (Ok VNone, false))
+      else (mkWindow (w_lo w) (w_hi w) (w_pos w) true, None, d, (Ok VNone, false)) in
+  match o with
+  | FLen => (w, None, d, (Ok (VInt (wlen w)), false))
+  | FClose => closing
+  | FExit => closing
+  | FEnter => (w, None, d, (Ok VNone, false))
+  (* an I/O error while bytes were to move: nothing moves, the error comes out, the warning (if one
+     was due) has been given; with no bytes to move the operation is the plain one *)
+  | FFaultRead n =>
+      let req := if n <? 0 then wlen w - w_pos w else n in
+      let k := transfer (w_pos w) req (wlen w) in
+      live (if 0 <? k then (w, None, d, (Failed 2, warned (w_pos w) req (wlen w)))
+            else (set_pos w (w_pos w + k), None, d,
+                  (Ok (VBytes (sub d (w_lo w + w_pos w) k)), warned (w_pos w) req (wlen w))))
+  | FFaultWrite bs =>
+      let k := transfer (w_pos w) (zlen bs) (wlen w) in
+      live (if 0 <? k then (w, None, d, (Failed 2, warned (w_pos w) (zlen bs) (wlen w)))
+            else (set_pos w (w_pos w + k), None, d, (Ok (VInt k), warned (w_pos w) (zlen bs) (wlen w))))
+  (* the warning is an error: if one is due nothing happens and it comes out as the exception *)
+  | FStrictRead n =>
+      let req := if n <? 0 then wlen w - w_pos w else n in
+      let k := transfer (w_pos w) req (wlen w) in
+      live (if warned (w_pos w) req (wlen w) then (w, None, d, (Failed 3, false))
+            else (set_pos w (w_pos w + k), None, d, (Ok (VBytes (sub d (w_lo w + w_pos w) k)), false)))
+  | FStrictWrite bs =>
+      let k := transfer (w_pos w) (zlen bs) (wlen w) in
+      live (if warned (w_pos w) (zlen bs) (wlen w) then (w, None, d, (Failed 3, false))
+            else (set_pos w (w_pos w + k), None,
+                  (if 0 <? k then splice d (w_lo w + w_pos w) (firstn (Z.to_nat k) bs) else d),
+                  (Ok (VInt k), false)))
   | FSeekSet n => live (set_pos w n, None, d, (Ok VNone, false))
   | FSeekCur n => live (set_pos w (w_pos w + n), None, d, (Ok VNone, false))
   | FSeekEnd n => live (set_pos w (wlen w + n), None, d, (Ok VNone, false))
@@ -200,6 +233,9 @@ Definition abs_vop (o : vop) : fop :=
   | Write bs => FWrite bs
   | Slice a b step => FSlice a b step
   | Tell => FTell | Len => FLen | Address => FAddress | Flush => FFlush | Close => FClose
+  | FaultRead n => FFaultRead n | FaultWrite bs => FFaultWrite bs
+  | StrictRead n => FStrictRead n | StrictWrite bs => FStrictWrite bs
+  | Enter => FEnter | Exit => FExit
   end.
 
 Definition abs_op (o : op) : aop :=
@@ -247,6 +283,11 @@ Definition output_is (base : Z) (o : output) (a : aout) : Prop :=
 (* ---------------------------------------------------------------------------------------- *)
 (* dead views                                                                                 *)
 (* ---------------------------------------------------------------------------------------- *)
-(* the methods that must fail on a closed view / freed allocation (everything but len() and close()) *)
+(* the methods that must fail on a closed view / freed allocation: everything but len(), close() and
+   the with-block protocol (__enter__ returns the object, __exit__ is close()) *)
 Definition guarded (o : vop) : bool :=
-  match o with Len | Close => false | _ => true end.
+  match o with Len | Close | Enter | Exit => false | _ => true end.
+
+(* read/write with the environment misbehaving *)
+Definition disturbed (o : vop) : bool :=
+  match o with FaultRead _ | FaultWrite _ | StrictRead _ | StrictWrite _ => true | _ => false end.
